@@ -73,6 +73,21 @@ ASSUMPTIONS = [
     "recorded, not compared",
     "the negation of an earlier check whose only effect is to raise another "
     "binder error orders the errors and is not counted as a guard",
+    "guard conditions are canonicalised through once-bound locals (a set "
+    "bound to `(set(positional) - posonly) & set(kws)` read for truthiness "
+    "means 'some passed keyword is bound positionally and is not "
+    "positional-only'; a condition local `too_many = len(posargs) > n` is "
+    "replaced by its definition when the names it reads have the same "
+    "reaching definitions at both places; `{k for k in X}` names the same set "
+    "as X; the name->argument map may be built under another local that the "
+    "returned name is a plain copy of); when the two binders' necessary "
+    "literals differ, or a CPython-derived literal is missing, and the raise "
+    "is guarded by a condition outside the vocabulary that reads anything "
+    "but the per-parameter loop variables (a call of an unknown predicate, an "
+    "unclassified local), the rule raises an analysis error instead of a "
+    "violation - such a condition may imply the missing fact; per-parameter "
+    "refinements (`p.optional`, the keyword-only flag) cannot, except for "
+    "positional-only-ness",
     "the binder functions (SignedFunction._map_args, PyTDSignature._map_args "
     "and _fill_in_missing_parameters) are looked up along the module-local MRO "
     "of their class (a method moved into a local mixin / base is found there; "
@@ -250,6 +265,7 @@ class _Binder:
     self.mod = U.ModView(mod, extra) if extra else mod
     self.defs = {q: _Defs(fn) for q, fn in self.fns}
     self.maps = {q: self._map_name(q, fn) for q, fn in self.fns}
+    self.map_names = {q: self._map_aliases(q, fn) for q, fn in self.fns}
 
   def _map_name(self, q, fn):
     """The name->argument dictionary of this function: the returned name (or
@@ -276,6 +292,29 @@ class _Binder:
       raise AnalysisError(f"{q}: name->argument map not identified ({names})")
     return next(iter(names))
 
+  def _map_aliases(self, q, fn):
+    """Names denoting the map object: the map name plus locals it is a plain
+    copy of / that are plain copies of it (`callargs = bound`), each bound
+    exactly once in the function."""
+    m = self.maps[q]
+    stores = {}
+    for n in walk_no_nested(fn):
+      if isinstance(n, ast.Name) and isinstance(n.ctx, ast.Store):
+        stores[n.id] = stores.get(n.id, 0) + 1
+    out = {m}
+    changed = True
+    while changed:
+      changed = False
+      for n in walk_no_nested(fn):
+        if isinstance(n, ast.Assign) and len(n.targets) == 1 and \
+            isinstance(n.targets[0], ast.Name) and isinstance(n.value, ast.Name):
+          a, b = n.targets[0].id, n.value.id
+          if stores.get(a) == 1 and stores.get(b, 0) <= 1 and \
+              ((a in out) != (b in out)):
+            out |= {a, b}
+            changed = True
+    return out
+
 
 def _binders(ctx):
   def make():
@@ -297,6 +336,7 @@ class _Canon:
     self.fn = fn
     self.defs = binder.defs[q]
     self.map = binder.maps[q]
+    self.map_names = binder.map_names[q]
     params = self.defs.params
     if "args" not in params:
       raise AnalysisError(f"{q}: no `args` parameter (the call record)")
@@ -370,7 +410,7 @@ class _Canon:
       return None
     e = expr
     if isinstance(e, ast.Name):
-      if e.id == self.map:
+      if e.id in self.map_names:
         return "bound"
       v, d = self.defs.value(e.id, stmt)
       if v is None:
@@ -395,6 +435,12 @@ class _Canon:
           e.key.id == g.target.elts[0].id:
         return self.set_class(g.iter.func.value, stmt, depth + 1)
       return None
+    if isinstance(e, (ast.SetComp, ast.ListComp, ast.GeneratorExp)) and \
+        len(e.generators) == 1 and not e.generators[0].ifs and \
+        isinstance(e.generators[0].target, ast.Name) and \
+        isinstance(e.elt, ast.Name) and e.elt.id == e.generators[0].target.id:
+      # {k for k in X}: the same names as X
+      return self.set_class(e.generators[0].iter, stmt, depth + 1)
     if isinstance(e, ast.SetComp) and len(e.generators) == 1:
       g = e.generators[0]
       if not g.ifs and isinstance(g.target, ast.Name) and \
@@ -441,6 +487,10 @@ class _Canon:
         return "bound-nonposonly"
       if op == "and" and {lc, rc} == {"keywords", "posonly"}:
         return "posonly-kw"
+      if op == "and" and {lc, rc} == {"keywords", "bound-nonposonly"}:
+        return "duplicated"
+      if op == "and" and {lc, rc} == {"keywords", "bound"}:
+        return "duplicated-any"
       return None
     return None
 
@@ -456,6 +506,24 @@ class _Canon:
       sc = self.set_class(expr, stmt)
       if sc in ("extra", "posonly-kw"):
         return ("atom", f"{sc}!=0")
+      if sc == "duplicated":
+        # some passed keyword is already bound positionally and is not
+        # positional-only
+        return ("and", [("atom", "name in bound"), ("atom", "name in keywords"),
+                        ("not", ("atom", "name in posonly"))])
+      if sc == "duplicated-any":
+        return ("and", [("atom", "name in bound"), ("atom", "name in keywords")])
+      # a once-bound local holding a condition: `too_many = len(..) > n`
+      v, d = self.defs.value(expr.id, stmt)
+      if v is not None and _depth_ok(self) and isinstance(
+          v, (ast.Compare, ast.BoolOp, ast.UnaryOp, ast.Call)) and \
+          all(self.defs.at(n, d) == self.defs.at(n, stmt)
+              for n in flow.names_in(v) if n != expr.id):
+        self._bool_depth = getattr(self, "_bool_depth", 0) + 1
+        try:
+          return self.formula(v, d)
+        finally:
+          self._bool_depth -= 1
     if isinstance(expr, ast.Call) and \
         (dotted(expr.func) or "").split(".")[-1] == "has_visible_namedarg":
       return ("atom", "call.visible-namedarg")
@@ -494,6 +562,13 @@ class _Canon:
           dotted(r.func) == "len" and len(r.args) == 1 and \
           self.posargs_like(r.args[0], stmt):
         return ("atom", "too-many-positional")
+      # len(posargs) >= capacity / capacity <= len(posargs): a different fact
+      # of the vocabulary (not the CPython condition)
+      for cnt, o in ((l, ast.GtE), (r, ast.LtE)):
+        if isinstance(op, o) and isinstance(cnt, ast.Call) and \
+            dotted(cnt.func) == "len" and len(cnt.args) == 1 and \
+            self.posargs_like(cnt.args[0], stmt):
+          return ("atom", "positional>=capacity")
     return self.atom(expr, stmt)
 
   def loop_domain(self, loop):
@@ -566,12 +641,17 @@ class _Canon:
         if isinstance(n, ast.Name):
           loop_names.add(n.id)
     f = ("and", conj)
+    self._loop_names = loop_names
     for a in _atoms(f, set()):
       if a.startswith("?") and a[1:] in loop_names:
         raise AnalysisError(
             f"{self.q}: the per-parameter flag `{a[1:]}` in a binder guard "
             "could not be resolved (is-keyword-only idiom not recognised)")
     return f, {"param.kwonly": False} if "param.kwonly" in _atoms(f, set()) else {}
+
+
+def _depth_ok(canon):
+  return getattr(canon, "_bool_depth", 0) < 4
 
 
 def _contains(root, node):
@@ -681,9 +761,20 @@ def _raise_facts(binder):
         key = f"WrongKeywordArgs[{tag}]"
       pc, fixed = canon.path_condition(r)
       lits, opaque, ref = _necessary_literals(pc, fixed)
+      # conditions outside the vocabulary that read something else than the
+      # per-parameter loop variables (they may hide any call-site / signature
+      # fact); per-parameter refinements (`p.optional`) cannot
+      hiding = []
+      for o in opaque:
+        try:
+          names = flow.names_in(ast.parse(o, mode="eval").body)
+        except SyntaxError:
+          names = {"?"}
+        if not names or not names <= canon._loop_names:
+          hiding.append(o)
       out.setdefault(key, []).append({
-          "literals": sorted(lits), "opaque": opaque, "evaluated_for": ref,
-          "line": r.lineno, "function": q})
+          "literals": sorted(lits), "opaque": opaque, "opaque_nonlocal": hiding,
+          "evaluated_for": ref, "line": r.lineno, "function": q})
   return out
 
 
@@ -695,10 +786,11 @@ def _kw_store_facts(binder):
   for q, fn in binder.fns:
     canon = _Canon(binder, q, fn)
     m = binder.maps[q]
+    ms = binder.map_names[q]
     for n in walk_no_nested(fn):
       # MAP.update(E)
       if isinstance(n, ast.Call) and isinstance(n.func, ast.Attribute) and \
-          isinstance(n.func.value, ast.Name) and n.func.value.id == m:
+          isinstance(n.func.value, ast.Name) and n.func.value.id in ms:
         if n.func.attr not in ("update", "get", "items", "keys", "values",
                                "setdefault", "pop", "copy"):
           raise AnalysisError(f"{q}: `{m}.{n.func.attr}` not understood")
@@ -747,7 +839,7 @@ def _kw_store_facts(binder):
       if isinstance(n, ast.Assign):
         for t in n.targets:
           if isinstance(t, ast.Subscript) and isinstance(t.value, ast.Name) \
-              and t.value.id == m:
+              and t.value.id in ms:
             loop = mod.parent.get(n)
             while loop is not None and loop is not fn and \
                 not isinstance(loop, ast.For):
@@ -800,6 +892,18 @@ def r13_1(ctx):
         problems.append(
             f"the {lab} binder raises {key} without requiring "
             f"{sorted(req - l)}")
+    if problems:
+      # a guard the vocabulary does not cover may well imply the missing
+      # literal: not decidable, never a violation
+      for lab, r, l, other in ((a.label, ra[0], la, lb), (b.label, rb[0], lb, la)):
+        miss = (other | req) - l
+        hiding = r["opaque_nonlocal"] or (
+            r["opaque"] if any("in posonly" in x for x in miss) else [])
+        if hiding and miss:
+          raise AnalysisError(
+              f"{key}: the {lab} binder's raise is guarded by conditions "
+              f"outside the vocabulary {hiding}; whether they imply "
+              f"{sorted(miss)} is not understood")
     ctx.check(not problems, key, rel, line,
               f"binder guard facts disagree for {key}: " + "; ".join(problems),
               facts)
@@ -1288,18 +1392,33 @@ def r13_5(ctx):
                 (dotted(r.exc.func) or "").split(".")[-1] == "WrongArgCount"):
           continue
         hits = []
-        for test, pol in flow.guards(binder.mod.parent, r, stop=fn):
-          holder = binder.mod.enclosing_stmt(test)
-          for c in ast.walk(test):
-            if not (isinstance(c, ast.Compare) and len(c.ops) == 1):
-              continue
-            l, op, rr = c.left, c.ops[0], c.comparators[0]
+
+        def scan(e, pol, holder, depth=0):
+          """Comparisons of len(posargs) under e, with the polarity they
+          have when the guard holds; once-bound condition locals
+          (`too_many = len(posargs) > n`) are looked through."""
+          if isinstance(e, ast.UnaryOp) and isinstance(e.op, ast.Not):
+            return scan(e.operand, not pol, holder, depth)
+          if isinstance(e, ast.Name) and depth < 4:
+            v, d = canon.defs.value(e.id, holder)
+            if v is not None and isinstance(
+                v, (ast.Compare, ast.BoolOp, ast.UnaryOp)):
+              scan(v, pol, d, depth + 1)
+            return
+          if isinstance(e, ast.Compare) and len(e.ops) == 1:
+            l, op, rr = e.left, e.ops[0], e.comparators[0]
             for count, cap, ops in ((l, rr, (ast.Gt, ast.GtE)),
                                     (rr, l, (ast.Lt, ast.LtE))):
               if isinstance(op, ops) and isinstance(count, ast.Call) and \
                   dotted(count.func) == "len" and len(count.args) == 1 and \
                   canon.posargs_like(count.args[0], holder):
-                hits.append((c, cap, holder, pol))
+                hits.append((e, cap, holder, pol))
+          for c in ast.iter_child_nodes(e):
+            if isinstance(c, ast.expr):
+              scan(c, pol, holder, depth)
+
+        for test, pol in flow.guards(binder.mod.parent, r, stop=fn):
+          scan(test, pol, binder.mod.enclosing_stmt(test))
         if len(hits) != 1:
           raise AnalysisError(
               f"{q}: WrongArgCount is guarded by {len(hits)} comparisons of "
@@ -1446,6 +1565,34 @@ VARIANTS = [
                 "    posonly_kws = kwnames & posonly_names\n    self._drop(args, posonly_kws)\n"),
                (FB, "  def _check_paramspec_args(self, args: function.Args) -> None:\n",
                 "  def _drop(self, args, names):\n    for k in names:\n      args.namedargs.pop(k)\n\n  def _check_paramspec_args(self, args: function.Args) -> None:\n")]},
+    {"name": "twin-interp-duplicate-as-intersection", "rule": "R13.1", "file": FB, "expect": "silent",
+     "old": "    for key in sorted(set(positional) - posonly_names):\n      if key in kws:\n        raise error_types.DuplicateKeyword(sig, args, self.ctx, key)\n",
+     "new": "    dups = sorted((set(positional) - posonly_names) & set(kws))\n    if dups:\n      raise error_types.DuplicateKeyword(sig, args, self.ctx, dups[0])\n"},
+    {"name": "interp-duplicate-as-intersection-includes-posonly", "rule": "R13.1", "file": FB, "expect": "fire",
+     "old": "    for key in sorted(set(positional) - posonly_names):\n      if key in kws:\n        raise error_types.DuplicateKeyword(sig, args, self.ctx, key)\n",
+     "new": "    dups = sorted(set(positional) & set(kws))\n    if dups:\n      raise error_types.DuplicateKeyword(sig, args, self.ctx, dups[0])\n"},
+    {"name": "interp-duplicate-guarded-by-unknown-predicate", "rule": "R13.1", "file": FB, "expect": "error",
+     "old": "    for key in sorted(set(positional) - posonly_names):\n      if key in kws:\n        raise error_types.DuplicateKeyword(sig, args, self.ctx, key)\n",
+     "new": "    dups = self._duplicated(positional, kws)\n    if dups:\n      raise error_types.DuplicateKeyword(sig, args, self.ctx, dups[0])\n"},
+    {"name": "twin-interp-count-via-condition-local", "rule": "R13.5", "file": FB, "expect": "silent",
+     "old": "    elif len(posargs) > self.argcount(node):\n      raise error_types.WrongArgCount(sig, args, self.ctx)\n",
+     "new": "    else:\n      too_many = len(posargs) > self.argcount(node)\n      if too_many:\n        raise error_types.WrongArgCount(sig, args, self.ctx)\n"},
+    {"name": "interp-count-via-condition-local-off-by-one", "rule": "R13.1", "file": FB, "expect": "fire",
+     "old": "    elif len(posargs) > self.argcount(node):\n      raise error_types.WrongArgCount(sig, args, self.ctx)\n",
+     "new": "    else:\n      too_many = len(posargs) >= self.argcount(node)\n      if too_many:\n        raise error_types.WrongArgCount(sig, args, self.ctx)\n"},
+    {"name": "interp-count-via-condition-local-counts-kwonly", "rule": "R13.5", "file": FB, "expect": "fire",
+     "old": "    elif len(posargs) > self.argcount(node):\n      raise error_types.WrongArgCount(sig, args, self.ctx)\n",
+     "new": "    else:\n      too_many = len(posargs) > len(sig.param_names + sig.kwonly_params)\n      if too_many:\n        raise error_types.WrongArgCount(sig, args, self.ctx)\n"},
+    {"name": "twin-interp-map-built-under-other-name", "rule": "R13.1", "expect": "silent",
+     "edits": [(FB, "    callargs = {\n", "    bound = {\n"),
+               (FB, "    callargs.update(positional)\n    callargs.update({k: v for k, v in kws.items() if k not in posonly_names})\n",
+                "    bound.update(positional)\n    bound.update({k: v for k, v in kws.items() if k not in posonly_names})\n    callargs = bound\n")]},
+    {"name": "interp-map-built-under-other-name-D7-revert", "rule": "R13.1", "expect": "fire",
+     "edits": [(FB, "    callargs = {\n", "    bound = {\n"),
+               (FB, "    callargs.update(positional)\n    callargs.update({k: v for k, v in kws.items() if k not in posonly_names})\n",
+                "    bound.update(positional)\n    bound.update(kws)\n    callargs = bound\n")]},
+    {"name": "twin-pytd-keyword-names-comprehension", "rule": "R13.1", "file": PF, "expect": "silent",
+     "old": "    kws = set(args.namedargs)\n", "new": "    kws = {k for k in args.namedargs}\n"},
     # R13.2
     {"name": "duplicate-keyword-arm-removed", "rule": "R13.2", "file": ERRORS, "expect": "fire",
      "old": "    elif isinstance(error, error_types.DuplicateKeyword):\n      self.duplicate_keyword(stack, error.name, error.bad_call, error.duplicate)\n",
